@@ -160,7 +160,7 @@ theorem insertRO_values (x : RO) (l : List RO) (hx : x.value.isSome)
       | none => simp [hvy] at hy
       | some vy =>
         simp only [insertRO, hvx, hvy, Option.getD_some, List.filterMap_cons, insertI]
-        by_cases hlt : vx < vy
+        by_cases hlt : vx ≤ vy
         · simp [hlt, hvx, hvy]
         · simp only [hlt, if_false, List.filterMap_cons, hvy]
           rw [ih']
@@ -248,6 +248,133 @@ theorem sel_values (sorted : List RO) (hs : ∀ ro ∈ sorted, ro.value.isSome) 
 variable (mk : List RO → List RollRec → RollRec) (hmk : KeepsValues mk)
 include hmk
 
+/-! ### the substitution loop -/
+
+omit hmk in
+theorem RO.value_adoptAppend (o ro : RO) : (RO.adoptAppend o ro).value = ro.value := by
+  cases ro; rfl
+
+omit hmk in
+theorem filterMap_filter_isSome (l : List RO) :
+    (l.filter fun ro => ro.value.isSome).filterMap RO.value = l.filterMap RO.value := by
+  induction l with
+  | nil => rfl
+  | cons a l ih =>
+    cases hv : a.value with
+    | none => simp [List.filter_cons, hv, ih]
+    | some v => simp [List.filter_cons, hv, ih]
+
+omit hmk in
+theorem filterMap_adoptAppend (o : RO) (l : List RO) :
+    (l.map (RO.adoptAppend o)).filterMap RO.value = l.filterMap RO.value := by
+  rw [List.filterMap_map]
+  congr 1
+  funext ro
+  exact RO.value_adoptAppend o ro
+
+omit hmk in
+theorem RO.value_mk (v : Option Int) (srcs : List RO) (o : Bool) : (RO.mk v srcs o).value = v := rfl
+
+omit hmk in
+theorem filterMap_substMap (p : Int → Bool) (f : Int → Int) (l : List RO) (hl : ∀ o ∈ l, o.value.isSome) :
+    (l.map fun o => if p (o.value.getD 0) then RO.mk (some (f (o.value.getD 0))) [o] false else o).filterMap RO.value
+      = (l.filterMap RO.value).map fun v => if p v then f v else v := by
+  induction l with
+  | nil => rfl
+  | cons o l ih =>
+    have ho := hl o (by simp)
+    obtain ⟨v, hv⟩ := Option.isSome_iff_exists.mp ho
+    have ih' := ih (fun o' ho' => hl o' (by simp [ho']))
+    rw [List.map_cons, List.filterMap_cons, List.filterMap_cons, hv, ih']
+    by_cases hp : p v = true
+    · simp only [Option.getD_some, hp, if_true, RO.value_mk, List.map_cons]
+    · simp only [Option.getD_some, hp, Bool.false_eq_true, if_false, hv, List.map_cons]
+
+/-- what a step of the substitution loop yields, as values -/
+def stepVals (res : List RO × List RollRec) : List Int := res.1.filterMap RO.value
+
+/-- **substitution, values**: forgetting the records, `_expanded_roll_outcomes` is `denExpand` -/
+theorem values_expandW (p : Int → Bool) (rollE : W RollRec) (denE : W (List Int))
+    (hE : mapW RollRec.values rollE = denE) (replace : Bool) :
+    ∀ (k : Nat) (roll : RollRec),
+      mapW stepVals (expandW mk p rollE replace k roll) = denExpand p denE replace k roll.values := by
+  subst hE
+  intro k
+  induction k with
+  | zero =>
+    intro roll
+    rw [expandW, denExpand, mapW_pure]
+    simp only [stepVals, filterMap_filter_isSome]
+    rfl
+  | succ k ih =>
+    intro roll
+    rw [expandW, denExpand]
+    have hvals : roll.values = (roll.outcomes.filter fun ro => ro.value.isSome).filterMap RO.value := by
+      rw [filterMap_filter_isSome]; rfl
+    rw [hvals]
+    have hlive : ∀ o ∈ (roll.outcomes.filter fun ro => ro.value.isSome), o.value.isSome := by
+      intro o ho; simpa using (List.mem_filter.mp ho).2
+    generalize (roll.outcomes.filter fun ro => ro.value.isSome) = l at hlive
+    -- the fold, for arbitrary accumulators
+    have key : ∀ (l : List RO), (∀ o ∈ l, o.value.isSome) →
+        ∀ (acc : W (List RO × List RollRec)) (dacc : W (List Int)), mapW stepVals acc = dacc →
+        mapW stepVals (l.foldl
+          (fun acc o => do
+            let st ← acc
+            if p (o.value.getD 0) then do
+              let er ← rollE
+              let adopted := mk (er.outcomes.map (RO.adoptAppend o)) er.sourceRolls
+              let sub ← expandW mk p rollE replace k adopted
+              pure (st.1 ++ [if replace then euthanize o else o] ++ sub.1, st.2 ++ sub.2)
+            else pure (st.1 ++ [o], st.2)) acc)
+        = (l.filterMap RO.value).foldl
+          (fun acc v => do
+            let outs ← acc
+            if p v then do
+              let ev ← mapW RollRec.values rollE
+              let sub ← denExpand p (mapW RollRec.values rollE) replace k ev
+              pure (outs ++ (if replace then [] else [v]) ++ sub)
+            else pure (outs ++ [v])) dacc := by
+      intro l
+      induction l with
+      | nil => intro _ acc dacc h; simpa using h
+      | cons o l ihl =>
+        intro hl acc dacc hacc
+        have ho : o.value.isSome := hl o (by simp)
+        obtain ⟨v, hv⟩ := Option.isSome_iff_exists.mp ho
+        rw [List.foldl_cons]
+        have hfm : (o :: l).filterMap RO.value = v :: l.filterMap RO.value := by
+          simp [List.filterMap_cons, hv]
+        rw [hfm, List.foldl_cons]
+        apply ihl (fun o' ho' => hl o' (by simp [ho']))
+        -- one step
+        rw [mapW_bind, ← hacc, bind_mapW]
+        apply bind_congr_W
+        intro st
+        simp only [hv, Option.getD_some]
+        by_cases hp : p v = true
+        · simp only [hp, if_true]
+          rw [mapW_bind, bind_mapW]
+          apply bind_congr_W
+          intro er
+          rw [mapW_bind]
+          have hadopt : (mk (er.outcomes.map (RO.adoptAppend o)) er.sourceRolls).values = er.values := by
+            rw [hmk, filterMap_adoptAppend]; rfl
+          rw [← hadopt, ← ih, bind_mapW]
+          apply bind_congr_W
+          intro sub
+          rw [mapW_pure]
+          congr 1
+          simp only [stepVals, List.filterMap_append]
+          cases replace with
+          | true => simp [euthanize, RO.value]
+          | false => simp [hv]
+        · simp only [hp, Bool.false_eq_true, if_false]
+          rw [mapW_pure]
+          congr 1
+          simp [stepVals, List.filterMap_append, hv]
+    exact key l hlive _ _ rfl
+
 mutual
 /-- **C11 core (fusion)**: forgetting the records, the roller semantics is the compositional
 denotation -/
@@ -324,6 +451,31 @@ theorem values_rollW : ∀ (r : RTree), mapW RollRec.values (rollW mk r) = den r
     | ok idxs =>
       simp only [mapW_pure]
       rw [hmk, sel_values _ hsorted.2, hsorted.1, values_live]
+  | .subst p e replace maxDepth src => by
+    rw [rollW, den, mapW_bind, ← values_rollW src, bind_mapW]
+    apply bind_congr_W
+    intro sr
+    rw [mapW_bind, ← values_expandW mk hmk p (rollW mk e) (den e) (values_rollW e) replace maxDepth sr,
+      ← bind_pure_mapW]
+    apply bind_congr_W
+    intro res
+    rw [mapW_pure, hmk]
+    rfl
+  | .substMap p f maxDepth src => by
+    rw [rollW, den, mapW_bind, ← values_rollW src, bind_mapW]
+    apply bind_congr_W
+    intro sr
+    rw [mapW_pure, hmk]
+    congr 1
+    by_cases hm : maxDepth = 0
+    · simp only [hm, if_true, filterMap_filter_isSome]; rfl
+    · simp only [hm, if_false]
+      have hvals : sr.values = (sr.outcomes.filter fun ro => ro.value.isSome).filterMap RO.value := by
+        rw [filterMap_filter_isSome]; rfl
+      rw [hvals]
+      have hlive : ∀ o ∈ (sr.outcomes.filter fun ro => ro.value.isSome), o.value.isSome := by
+        intro o ho; simpa using (List.mem_filter.mp ho).2
+      exact filterMap_substMap p f _ hlive
 end
 
 end Dyce
